@@ -655,3 +655,28 @@ def index_chain(t):
 
 def is_full_slice(x):
     return isinstance(x, T) and x.op == 'slice' and all(const_val(a) is None for a in x.args)
+
+
+def gamma_paths(t, conds=None, depth=0):
+    """[(path condition {id(cond): (cond term, polarity)}, leaf term)] of a gamma tree (refinements are looked through)"""
+    conds = conds or {}
+    t0 = t
+    while isinstance(t0, T) and t0.op == 'refine':
+        t0 = t0.args[0]
+    if isinstance(t0, T) and t0.op == 'gamma' and depth < 40:
+        c, pol = cond_polarity(t0.args[0])
+        out = []
+        for br, p in ((t0.args[1], pol), (t0.args[2], not pol)):
+            prev = conds.get(id(c))
+            if prev is not None and prev[1] != p:
+                continue        # contradicts an enclosing test of the same condition
+            c2 = dict(conds)
+            c2[id(c)] = (c, p)
+            out += gamma_paths(br, c2, depth + 1)
+        return out
+    return [(conds, t0)]
+
+
+def compatible(c1, c2):
+    """two path conditions that do not test the same condition with opposite outcomes"""
+    return all(k not in c2 or c2[k][1] == v[1] for k, v in c1.items())
